@@ -11,6 +11,7 @@
               <<"tup", preserve, <<t..>>>>       TupleType
               <<"arr", t, c>>  <<"farr", t, c>>  array[t, c] / frozenarray[t, c]
               <<"opt", t>>                       Option[t]
+              <<"either", l, r>>                 Either[l, r] (a Hugr sum with one row per side)
               <<"fn", <<t..>>, t>>               non-generic FunctionType (Callable)
               <<"rec", <<t..>>>>                 non-generic struct with these field types
               <<"st", name, <<arg..>>>>          instance of the generic struct `name` (GStruct)
@@ -58,6 +59,7 @@ TTup(es) == <<"tup", FALSE, es>>
 TArr(t, c) == <<"arr", t, c>>
 TFArr(t, c) == <<"farr", t, c>>
 TOpt(t) == <<"opt", t>>
+TEither(l, r) == <<"either", l, r>>
 TFn(ins, out) == <<"fn", ins, out>>
 TRec(fs) == <<"rec", fs>>
 TSt(name, args) == <<"st", name, args>>
@@ -79,7 +81,7 @@ PIdx(p) == p[2]
 PName(p) == p[3]
 
 \* ---- generic structs (a fixed table; the harness declares exactly these) -------------
-GStructNames == {"G1", "GQ", "GA", "GN", "GP", "GC", "GD", "GF"}
+GStructNames == {"G1", "GQ", "GA", "GN", "GP", "GC", "GD", "GF", "Tag"}
 GStruct(name) ==
     CASE name = "G1" -> [params |-> <<TP(0, "T", FALSE, FALSE)>>,           \* x: T
                          fields |-> <<BV(0, "T", FALSE, FALSE)>>]
@@ -95,6 +97,8 @@ GStruct(name) ==
                          fields |-> <<BV(0, "T", TRUE, FALSE)>>]
       [] name = "GD" -> [params |-> <<TP(0, "T", FALSE, TRUE)>>,            \* T: Drop; x: T
                          fields |-> <<BV(0, "T", FALSE, TRUE)>>]
+      [] name = "Tag" -> [params |-> <<CP(0, "B", TBool, FALSE)>>,         \* no fields: B: bool const
+                          fields |-> <<>>]
       [] name = "GF" -> [params |-> <<TP(0, "T", FALSE, FALSE)>>,           \* f: Callable[[T], T]
                          fields |-> <<TFn(<<BV(0, "T", FALSE, FALSE)>>, BV(0, "T", FALSE, FALSE))>>]
 
@@ -109,6 +113,7 @@ InstT(t, inst) ==
       [] t[1] = "tup" -> <<"tup", t[2], SeqMap(LAMBDA e : InstT(e, inst), t[3])>>
       [] t[1] \in {"arr", "farr"} -> <<t[1], InstT(t[2], inst), InstC(t[3], inst)>>
       [] t[1] = "opt" -> TOpt(InstT(t[2], inst))
+      [] t[1] = "either" -> TEither(InstT(t[2], inst), InstT(t[3], inst))
       [] t[1] = "fn" -> TFn(SeqMap(LAMBDA e : InstT(e, inst), t[2]), InstT(t[3], inst))
       [] t[1] = "rec" -> t                                     \* closed by construction
       [] t[1] = "st" -> TSt(t[2], SeqMap(LAMBDA a : InstA(a, inst), t[3]))
@@ -171,6 +176,7 @@ ScopedT(t, params) ==
       [] t[1] = "tup" -> \A k \in DOMAIN t[3] : ScopedT(t[3][k], params)
       [] t[1] \in {"arr", "farr"} -> ScopedT(t[2], params) /\ ScopedC(t[3], params)
       [] t[1] = "opt" -> ScopedT(t[2], params)
+      [] t[1] = "either" -> ScopedT(t[2], params) /\ ScopedT(t[3], params)
       [] t[1] = "fn" -> (\A k \in DOMAIN t[2] : ScopedT(t[2][k], params)) /\ ScopedT(t[3], params)
       [] t[1] = "st" -> \A k \in DOMAIN t[3] :
                             IF t[3][k][1] = "T" THEN ScopedT(t[3][k][2], params)
@@ -203,6 +209,7 @@ NameT(t, params) ==           \* de Bruijn -> named, using the binder the index 
       [] t[1] = "tup" -> <<"tup", t[2], SeqMap(LAMBDA e : NameT(e, params), t[3])>>
       [] t[1] \in {"arr", "farr"} -> <<t[1], NameT(t[2], params), NameC(t[3], params)>>
       [] t[1] = "opt" -> TOpt(NameT(t[2], params))
+      [] t[1] = "either" -> TEither(NameT(t[2], params), NameT(t[3], params))
       [] t[1] = "fn" -> TFn(SeqMap(LAMBDA e : NameT(e, params), t[2]), NameT(t[3], params))
       [] t[1] = "st" -> TSt(t[2], SeqMap(LAMBDA a : IF a[1] = "T" THEN ArgT(NameT(a[2], params))
                                                     ELSE ArgC(NameC(a[2], params)), t[3]))
@@ -224,6 +231,7 @@ SubstT(t, sigma) ==           \* sigma : [set of names -> args]
       [] t[1] = "tup" -> <<"tup", t[2], SeqMap(LAMBDA e : SubstT(e, sigma), t[3])>>
       [] t[1] \in {"arr", "farr"} -> <<t[1], SubstT(t[2], sigma), SubstC(t[3], sigma)>>
       [] t[1] = "opt" -> TOpt(SubstT(t[2], sigma))
+      [] t[1] = "either" -> TEither(SubstT(t[2], sigma), SubstT(t[3], sigma))
       [] t[1] = "fn" -> TFn(SeqMap(LAMBDA e : SubstT(e, sigma), t[2]), SubstT(t[3], sigma))
       [] t[1] = "st" -> TSt(t[2], SeqMap(LAMBDA a : IF a[1] = "T" THEN ArgT(SubstT(a[2], sigma))
                                                     ELSE ArgC(SubstC(a[2], sigma)), t[3]))
@@ -249,6 +257,7 @@ UnnameT(t, nparams) ==        \* named -> de Bruijn: index = position of the bin
       [] t[1] = "tup" -> <<"tup", t[2], SeqMap(LAMBDA e : UnnameT(e, nparams), t[3])>>
       [] t[1] \in {"arr", "farr"} -> <<t[1], UnnameT(t[2], nparams), UnnameC(t[3], nparams)>>
       [] t[1] = "opt" -> TOpt(UnnameT(t[2], nparams))
+      [] t[1] = "either" -> TEither(UnnameT(t[2], nparams), UnnameT(t[3], nparams))
       [] t[1] = "fn" -> TFn(SeqMap(LAMBDA e : UnnameT(e, nparams), t[2]), UnnameT(t[3], nparams))
       [] t[1] = "st" -> TSt(t[2], SeqMap(LAMBDA a : IF a[1] = "T" THEN ArgT(UnnameT(a[2], nparams))
                                                     ELSE ArgC(UnnameC(a[2], nparams)), t[3]))
@@ -278,6 +287,7 @@ Copyable(t) ==
       [] t[1] \in {"bv", "tv"} -> IF t[1] = "bv" THEN t[4] ELSE t[3]
       [] t[1] = "tup" -> \A k \in DOMAIN t[3] : Copyable(t[3][k])
       [] t[1] \in {"opt", "farr"} -> Copyable(t[2])
+      [] t[1] = "either" -> Copyable(t[2]) /\ Copyable(t[3])
       [] t[1] = "rec" -> \A k \in DOMAIN t[2] : Copyable(t[2][k])
       [] t[1] = "st" ->
             /\ \A k \in DOMAIN GStruct(t[2]).fields : Copyable(InstT(GStruct(t[2]).fields[k], t[3]))
@@ -288,6 +298,7 @@ Droppable(t) ==
       [] t[1] \in {"bv", "tv"} -> IF t[1] = "bv" THEN t[5] ELSE t[4]
       [] t[1] = "tup" -> \A k \in DOMAIN t[3] : Droppable(t[3][k])
       [] t[1] \in {"arr", "opt", "farr"} -> Droppable(t[2])
+      [] t[1] = "either" -> Droppable(t[2]) /\ Droppable(t[3])
       [] t[1] = "rec" -> \A k \in DOMAIN t[2] : Droppable(t[2][k])
       [] t[1] = "st" ->
             /\ \A k \in DOMAIN GStruct(t[2]).fields : Droppable(InstT(GStruct(t[2]).fields[k], t[3]))
@@ -308,6 +319,7 @@ HugrRepCopyable(t) ==
       [] t[1] \in {"bv", "tv"} -> IF t[1] = "bv" THEN t[4] ELSE t[3]
       [] t[1] = "tup" -> \A k \in DOMAIN t[3] : HugrRepCopyable(t[3][k])
       [] t[1] = "opt" -> HugrRepCopyable(t[2])
+      [] t[1] = "either" -> HugrRepCopyable(t[2]) /\ HugrRepCopyable(t[3])    \* every variant row
       [] t[1] = "rec" -> \A k \in DOMAIN t[2] : HugrRepCopyable(t[2][k])
       [] t[1] = "st" -> \A k \in DOMAIN GStruct(t[2]).fields :
                             HugrRepCopyable(InstT(GStruct(t[2]).fields[k], t[3]))
@@ -317,6 +329,7 @@ RECURSIVE Phantoms(_)
 Phantoms(t) ==
     CASE t[1] = "tup" -> UNION {Phantoms(t[3][k]) : k \in DOMAIN t[3]}
       [] t[1] \in {"arr", "farr", "opt"} -> Phantoms(t[2])
+      [] t[1] = "either" -> Phantoms(t[2]) \cup Phantoms(t[3])
       [] t[1] = "rec" -> UNION {Phantoms(t[2][k]) : k \in DOMAIN t[2]}
       [] t[1] = "st" ->            \* blame the innermost struct only
             LET inner == UNION {IF t[3][k][1] = "T" THEN Phantoms(t[3][k][2]) ELSE {} : k \in DOMAIN t[3]}
@@ -334,6 +347,7 @@ WellFormed(t) ==
     CASE t[1] = "tup" -> \A k \in DOMAIN t[3] : WellFormed(t[3][k])
       [] t[1] = "arr" -> WellFormed(t[2])
       [] t[1] = "opt" -> WellFormed(t[2])
+      [] t[1] = "either" -> WellFormed(t[2]) /\ WellFormed(t[3])
       [] t[1] = "farr" -> WellFormed(t[2]) /\ Copyable(t[2]) /\ Droppable(t[2])
       [] t[1] = "fn" -> (\A k \in DOMAIN t[2] : WellFormed(t[2][k])) /\ WellFormed(t[3])
       [] t[1] = "rec" -> \A k \in DOMAIN t[2] : WellFormed(t[2][k])
@@ -369,6 +383,7 @@ BoundIdxT(t) ==               \* indices of the bound variables occurring in a t
       [] t[1] = "tup" -> UNION {BoundIdxT(t[3][k]) : k \in DOMAIN t[3]}
       [] t[1] \in {"arr", "farr"} -> BoundIdxT(t[2]) \cup (IF t[3][1] = "bc" THEN {t[3][2]} ELSE {})
       [] t[1] = "opt" -> BoundIdxT(t[2])
+      [] t[1] = "either" -> BoundIdxT(t[2]) \cup BoundIdxT(t[3])
       [] t[1] = "fn" -> UNION {BoundIdxT(t[2][k]) : k \in DOMAIN t[2]} \cup BoundIdxT(t[3])
       [] t[1] = "st" -> UNION {IF t[3][k][1] = "T" THEN BoundIdxT(t[3][k][2])
                                ELSE IF t[3][k][2][1] = "bc" THEN {t[3][k][2][2]} ELSE {}
@@ -382,6 +397,7 @@ NormT(t, mono) ==
       [] t[1] = "tup" -> <<"tup", t[2], SeqMap(LAMBDA e : NormT(e, mono), t[3])>>
       [] t[1] \in {"arr", "farr"} -> <<t[1], NormT(t[2], mono), NormC(t[3], mono)>>
       [] t[1] = "opt" -> TOpt(NormT(t[2], mono))
+      [] t[1] = "either" -> TEither(NormT(t[2], mono), NormT(t[3], mono))
       [] t[1] = "fn" -> TFn(SeqMap(LAMBDA e : NormT(e, mono), t[2]), NormT(t[3], mono))
       [] t[1] = "st" -> TSt(t[2], SeqMap(LAMBDA a : IF a[1] = "T" THEN ArgT(NormT(a[2], mono))
                                                     ELSE ArgC(NormC(a[2], mono)), t[3]))
